@@ -364,6 +364,27 @@ def r11_7(ctx, scope):
     ctx.count('fallible_calls_followed', n)
 
 
+def r11_8(ctx, A):
+    """the adapter reports what the sink did, it does not judge it: no explicit panic (assert! / panic! / unreachable!) after a call
+    to the inner writer - a sink that accepts zero bytes must surface as Err(WriteZero) through write_all, not as a panic"""
+    R = ctx.rule('R11.8', 'no explicit panic in the counting adapter after the inner writer was called', floor=1)
+    impl = A.write_impl_fns() if not A.err else {}
+    if not impl:
+        ctx.missing(R, 'anchor:write-impl', 'io::Write impl of the counting writer not found')
+        return
+    for mname, f in sorted(impl.items()):
+        bad = False
+        for p in explore(f, max_visits=1, havoc=True):
+            if p.end != 'diverge':
+                continue
+            calls = path_calls(p, expand=False)
+            inner = [c for c in calls if f.callee_decl(c[4]) in SM.IO_WRITE_METHODS]
+            pan = [c for c in calls if isinstance(c[2], str) and SM.is_panic_fn(c[2])]
+            if inner and pan and pan[-1][0] > inner[0][0]:
+                bad = True
+        ctx.check(R, not bad, 'adapter-panics:' + mname, 'the counting writer\'s %s panics on an outcome of the inner writer (an assertion on the returned count): a misbehaving or merely zero-length-writing sink aborts the build instead of producing Err(Io)' % mname, fn=f)
+
+
 def run(ctx):
     lib = ctx.lib
     A = Anchors(lib)
@@ -401,3 +422,4 @@ def run(ctx):
     ctx.step(r11_5, ctx)
     ctx.step(r11_6, ctx, scope)
     ctx.step(r11_7, ctx, scope)
+    ctx.step(r11_8, ctx, A)
